@@ -147,6 +147,8 @@ func (e *Exec) cqReq(op Op) string {
 		return fmt.Sprintf("(RNewVersion %d %d)", op.V, op.Child)
 	case "dagmerge":
 		return fmt.Sprintf("(RDagMerge %d %s %d)", op.V, cqNs(op.Labels), op.Child)
+	case "restart":
+		return "RRestart"
 	}
 	return "RObserve"
 }
@@ -271,6 +273,7 @@ func emitRun(o lib.Opts) {
 		}
 		run.Count(fmt.Sprintf("versions:%d", len(e.uuids)))
 		run.Count(fmt.Sprintf("index-cache:%v", h.Cache))
+		run.Count(fmt.Sprintf("child-server-process:%v", h.Child))
 		run.Count(fmt.Sprintf("scale-1-observed:%v", h.G.Lo))
 		run.Count(fmt.Sprintf("blocks:%d", h.G.NBlocks()))
 		sort.Strings(kinds)
@@ -290,6 +293,7 @@ func emitRun(o lib.Opts) {
 		}
 		e.run()
 		addHistory(&h, e)
+		stopChild()
 		run.Finish("history", "replay", tail)
 		return
 	}
@@ -316,6 +320,27 @@ func emitRun(o lib.Opts) {
 		e.run()
 		addHistory(&h, e)
 	}
+	// dense chains of mapping operations on a child server process that is restarted
+	nc := 5
+	if o.Thorough() {
+		nc = 20
+	}
+	if o.N > 0 {
+		nc = (o.N + 2) / 3
+	}
+	cmaster := lib.NewRand(o.Seed ^ 0xC4A1)
+	for k := 0; k < nc; k++ {
+		rng := lib.NewRand(cmaster.U64())
+		h := genChainHistory(rng, k)
+		e, err := newExec(h)
+		if err != nil {
+			fmt.Fprintln(os.Stderr, "setup:", err)
+			os.Exit(2)
+		}
+		driveChain(e, rng)
+		addHistory(h, e)
+	}
+	stopChild()
 	master := lib.NewRand(o.Seed)
 	for k := 0; k < n; k++ {
 		rng := lib.NewRand(master.U64())
@@ -330,7 +355,7 @@ func emitRun(o lib.Opts) {
 		addHistory(h, e)
 	}
 	run.Finish("history",
-		"one fixed history of kind dagmerge (conflict-free repo merge whose non-first parent merged a body, read at the merge child: finding C08-dagmerge, class 12); random proofreading histories on 16^3-block labelmap instances (2-8 blocks; background, multi-block and sub-block supervoxels, labels up to 2^63): ingest by POST blocks / POST raw / ingest-supervoxels+indices+mappings, then about ten of merge, cleave, split-supervoxel, renumber, mutating raw write, body split, a few requests violating a contract on purpose, interleaved with commit / newversion / branch; every read endpoint of the property observed after each request at the touched version and one more; a history is distinct by its operation multiset, geometry and content hash",
+		"one fixed history of kind dagmerge (conflict-free repo merge whose non-first parent merged a body, read at the merge child: finding C08-dagmerge, class 12); histories of kind chain on a child server process (one block, 24-32 merge / cleave / renumber / split-supervoxel operations piled on the same few bodies, biased towards body ids that are also live supervoxel ids of another body, over 2-4 versions, the server process restarted twice and every version read again leaves first); random proofreading histories on 16^3-block labelmap instances (2-8 blocks; background, multi-block and sub-block supervoxels, labels up to 2^63): ingest by POST blocks / POST raw / ingest-supervoxels+indices+mappings, then about ten of merge, cleave, split-supervoxel, renumber, mutating raw write (boxes, wipe-outs, count-preserving rotations of a box across a block face), body split, a few requests violating a contract on purpose, interleaved with commit / newversion / branch; every read endpoint of the property observed after each request at the touched version and one more; a history is distinct by its operation multiset, geometry and content hash",
 		tail)
 }
 
